@@ -95,6 +95,14 @@ CLAIMS = {
         "1..6 threads x up to 50 uses x uniform/long-stride schedules; each schedule is replayed action by action through the extracted model; epoch counters check no-early-exit on the implementation.",
    note=TB + "SC atomics; code between two scheduling points is atomic.",
    tech="Coq proof (inductive invariant over all interleavings, parametric in n) + exact schedule replay through the extracted model"),
+ "C20": dict(cat="proof", ref="DESIGN.md §5 C20",
+   text="Theorems (Properties_C20.v, axiom-free): decode (encode f) = f consuming exactly the encoding, for every well-formed file content (any number of nodes, threads, "
+        "records, metrics; names <= 255 bytes; 64-bit little-endian words). Consistency decided on real files: runs with a statistics file under GVT periods 0/small/very large "
+        "(zero, one, many rounds), 1..16 threads, with injected preemptions at the hook after gvt_phase_run (corpus scenario of finding F9): the .bin must decode with the extracted "
+        "decoder with nothing left over and re-encode identically, be accepted by the shipped parser, have equal record counts for node and threads, non-decreasing GVTs, cumulative "
+        "undone <= forward, and every per-thread record must equal the hook-trace counts (forward, rollbacks, undone, checkpoints, silent, anti-messages) of its interval.",
+   note=TB + "timing and memory metrics are checked for presence only; counter accounting is checked against traces, not proved.",
+   tech="Coq proof (codec round-trip) + decoding of real output with the extracted decoder + per-interval counter comparison with hook traces"),
 }
 
 PENDING_REASON = "check not built yet in this session (work in progress, see DESIGN.md §8 order of work); not claimed until its theorem and correspondence run"
